@@ -197,6 +197,25 @@ def run(chk):
             return f"dyn_loss = {found}"
         chk.run("C03.R1", site + "->dynamic_loss_apply", cfg, go, construct="dyn_loss formula (batch with observed parameters)")
 
+    # a weight of exactly zero (Python 0 / 0.0 given at construction) switches its term off: the weight is used as given
+    for eq_type, names in (('ODE', ('dyn', 'ic', 'obs')), ('statio_PDE', ('dyn', 'norm', 'bc', 'obs')),
+                           ('nonstatio_PDE', ('dyn', 'norm', 'bc', 'obs', 'ic'))):
+        for zero in (0, 0.0):
+            cfg = {"loss": eq_type, "net": "PINN", "configured": list(names), "every_weight": repr(zero)}
+            site = {"ODE": "jinns.loss._LossODE:LossODE.evaluate", "statio_PDE": "jinns.loss._LossPDE:LossPDEStatio.evaluate",
+                    "nonstatio_PDE": "jinns.loss._LossPDE:LossPDENonStatio.evaluate"}[eq_type]
+
+            def go(eq_type=eq_type, names=names, zero=zero):
+                S = SingleLoss(E, eq_type, 'PINN', d=2, m_u=1, m_res=1, terms=names, weight_value=zero)
+                total, terms = S.evaluate()
+                for k, v in terms.items():
+                    if not scalar_of(v, k).is_zero():
+                        raise Violation(k, f"{k} = {canon(scalar_of(v, k))} with a weight of {zero!r}", "0")
+                if not scalar_of(total, 'total').is_zero():
+                    raise Violation("total", str(canon(scalar_of(total, 'total'))), "0")
+                return "every term and the total are 0"
+            chk.run("C03.R3", site, cfg, go, construct="zero weights")
+
     # R2 / R3: subsets of configured terms
     all_terms = {'ODE': ('dyn', 'ic', 'obs'), 'statio_PDE': ('dyn', 'norm', 'bc', 'obs'),
                  'nonstatio_PDE': ('dyn', 'norm', 'bc', 'obs', 'ic')}
